@@ -7,13 +7,13 @@
   OBLIGATION c17_strings_tag
   OBLIGATION c17_strings_description_quoted
   OBLIGATION c17_description_style
+  OBLIGATION c17_strings_block
   OBLIGATION c17_witness_reason_quote
   OBLIGATION c17_witness_single_line_backslash
   OBLIGATION c17_witness_tag_backslash
   OBLIGATION c17_witness_block_triple_quote
   OBLIGATION c17_witness_interface_order
   OBLIGATION c17_witness_dynamic_registration
-  OPEN c17_strings_block
   OPEN c17_tokens
   OPEN c17_chars
 
@@ -22,9 +22,10 @@
 -/
 import AGV.Model.Sdl
 import AGV.Spec.SdlParse
+import AGV.Lemmas.SdlBlock
 
 namespace AGV.Props.C17
-open AGV.Core.Sdl AGV.Model.Sdl AGV.Spec.Literal AGV.Spec.Lex
+open AGV.Core.Sdl AGV.Model.Sdl AGV.Spec.Literal AGV.Spec.Lex AGV.Lemmas.SdlBlock
 
 /-- one arm of the repaired `escape_string` is read back as the character it stands for -/
 theorem lexString_escapeChar (c : Char) (tl : Text) :
@@ -117,6 +118,28 @@ theorem c17_description_style (o : Opts) (level : Nat) (d : Text)
 
 example : blockPrintable "a\n b".toList = true := by decide
 
+/-- a block-printable description written in the block style is ONE token denoting the
+    description: the lexer takes the block-string branch, the token ends at the exporter's closing
+    quotes, and `BlockStringValue` of the indented raw text is the description — all texts the
+    repaired exporter prints as blocks, every indentation made of blanks, whatever follows -/
+theorem c17_strings_block : ∀ (tb d rest : Text), tb.all isBlank = true → blockPrintable d = true →
+    lexToken (quotes3 ++ '\n' :: tb ++ indentLines tb d ++ '\n' :: tb ++ quotes3 ++ '\n' :: rest) = some (.str d, '\n' :: rest) := by
+  intro tb d rest htb hd
+  have hd' := hd
+  simp only [blockPrintable, Bool.and_eq_true, Bool.not_eq_true'] at hd'
+  have hlb := lexBlock_indent tb d ('\n' :: rest) htb hd'.1.1.1
+  have e : quotes3 ++ '\n' :: tb ++ indentLines tb d ++ '\n' :: tb ++ quotes3 ++ '\n' :: rest =
+      '"' :: '"' :: '"' :: ('\n' :: tb ++ indentLines tb d ++ '\n' :: tb ++ quotes3 ++ '\n' :: rest) := by
+    simp [quotes3, List.append_assoc]
+  rw [e]
+  unfold lexToken
+  have h1 : isPunct '"' = false := by decide
+  have h2 : nameStart '"' = false := by decide
+  have h3 : isDig '"' = false := by decide
+  simp only [h1, h2, h3, hlb, blockStringValue_indent tb d htb hd]
+  simp
+
+
 -- ------------------------------------------------------------------ witnesses of the toggles
 
 /-- `"` alone: without the quote arm the token ends at the inner quote -/
@@ -175,13 +198,6 @@ theorem c17_witness_dynamic_registration :
   refine ⟨rfl, rfl, rfl⟩
 
 -- ------------------------------------------------------------------ open
-
-/-- OPEN: a block-printable description written in the block style is one token denoting the
-    description (BlockStringValue of the indented raw text).  Checked on every generated case by the
-    judge (the reference parser reads the real SDL), witnessed above for the failing shapes. -/
-def c17_strings_block : Prop :=
-  ∀ (tb d rest : Text), tb.all isBlank = true → blockPrintable d = true →
-    lexToken (quotes3 ++ '\n' :: tb ++ indentLines tb d ++ '\n' :: tb ++ quotes3 ++ '\n' :: rest) = some (.str d, '\n' :: rest)
 
 /-- OPEN: the whole document: the reference parser reads the exported text as the description of
     the registered schema (for schemas whose names are Names and whose values are well-formed) -/
